@@ -540,7 +540,7 @@ func timeToInt64(ts *time.Time) int64 {
 
 func int64ToTime(ts int64) *time.Time {
 	if ts > 0 {
-		res := time.Unix(ts/1000, ts%1000).UTC()
+		res := time.Unix(ts/1000, (ts%1000)*int64(time.Millisecond)).UTC()
 		return &res
 	}
 	return nil
